@@ -17,7 +17,7 @@ import random
 from datetime import datetime as dt, timedelta as td
 
 from .. import gwrig, rt
-from ..common import Check, Model
+from ..common import esc, Check, Model
 
 CTL = "01:145038"
 CTL2 = "01:223036"
@@ -73,8 +73,25 @@ def part_a(chk: Check, rnd: random.Random, thorough: bool) -> None:
         frames.append(f" I --- {CTL} --:------ {CTL} 1F09 003 FF{cd:04X}")
         if rnd.random() < 0.3:
             frames.append(f"RP --- {CTL} {GWY} --:------ 1F09 003 00{cd:04X}")
+    # OpenTherm replies of every data-id class (status / parameters / schema: 10.5 min, 2.1 h, 12.6 h), in a shuffled order
+    from ramses_tx.command import Command as _Cmd
+    from ramses_tx.opentherm import PARAMS_DATA_IDS, SCHEMA_DATA_IDS, STATUS_DATA_IDS
+
+    ot = []
+    for ids in (STATUS_DATA_IDS, PARAMS_DATA_IDS, SCHEMA_DATA_IDS):
+        for i in rnd.sample(sorted(ids), min(len(ids), 4)):
+            try:
+                rq = _Cmd.get_opentherm_data("10:067219", i)
+            except Exception:  # noqa: BLE001
+                continue
+            # the read-ack of that data-id with value 0 (parity of msg-type 4 + id)
+            par = (bin(0x40).count("1") + bin(i).count("1")) % 2
+            ot.append(f"RP --- 10:067219 {GWY} --:------ 3220 005 00{(0x40 | (0x80 if par else 0)):02X}{i:02X}0000")
+    rnd.shuffle(ot)
+    frames = ot[: len(ot) // 2] + frames + ot[len(ot) // 2:]
     g = FakeGwy()
     reqs, impl, meta = [], [], []
+    kind_reqs, kind_impl, kind_meta = [], [], []
     for fr in frames:
         dtm = EPOCH + td(microseconds=rnd.randrange(0, 10**9))
         try:
@@ -84,6 +101,12 @@ def part_a(chk: Check, rnd: random.Random, thorough: bool) -> None:
             continue
         if life == "X":
             continue
+        # "each message has a lifetime fixed by its kind": the lifetime the library uses is the one the model of pkt_lifespan
+        # assigns to this frame on its own - whatever was received before it
+        if not (fr[37:41] == "1F09" and fr[:2] != "RQ"):
+            kind_reqs.append("recv.file\tTrue\t" + esc("045 " + fr))
+            kind_impl.append("False" if life in ("C", "0") else life)
+            kind_meta.append({"op": "lifetime", "frame": fr})
         msg._gwy = g
         t0 = us(dtm)
         if life == "C":
@@ -131,6 +154,14 @@ def part_a(chk: Check, rnd: random.Random, thorough: bool) -> None:
     for r, a, b, m in zip(reqs, impl, outs, meta):
         if a != b:
             chk.divergence("db.expired", m, a, b)
+    for r, a, b, m in zip(kind_reqs, kind_impl, Model().run(kind_reqs), kind_meta):
+        p = b.split("\t")
+        if p[0] != "packet":
+            continue
+        chk.count("lifetime_by_kind.compared")
+        if p[-1] != a:
+            chk.violation("c14.lifetime_not_by_kind:" + m["frame"][37:41], f"{m['frame']!r} is given a lifetime of {a} us; a packet of its kind has {p[-1]} us "
+                          "(what the same frame gets when it is the first packet of a process)", m)
     chk.extra["model_ops_compared"] = chk.extra.get("model_ops_compared", 0) + len(reqs)
 
 
